@@ -622,6 +622,24 @@ copy_sds(int32 sd_in, int32 sd_out, int32 tag, /* tag of input SDS */
      *-------------------------------------------------------------------------
      */
 
+    /* The new SDS got default dimension names ("fakeDim<n>", numbered in the order of creation in the
+       output file), which can be the very names the input gives to other dimensions of this SDS.
+       SDsetdimname would then fail (sizes differ) or silently share the two dimensions (sizes agree),
+       so move the default names out of the way first. */
+    for (i = 0; i < rank; i++) {
+        char tmp_name[H4_MAX_NC_NAME];
+
+        if ((dim_out = SDgetdimid(sds_out, i)) == FAIL) {
+            printf("Failed to get dim_id for dimension %d of SDS <%s>\n", i, path);
+            goto out;
+        }
+        snprintf(tmp_name, sizeof(tmp_name), "hrepack_tmp_dim_%d", i);
+        if (SDsetdimname(dim_out, tmp_name) == FAIL) {
+            printf("Failed to set dimension name %d of SDS <%s>\n", i, path);
+            goto out;
+        }
+    }
+
     /* loop through each dimension up to rank of SDS */
     for (i = 0; i < rank; i++) {
         int32 dim_size;
